@@ -125,7 +125,11 @@ type runResult struct {
 	// own output there).
 	mixedHistory bool
 	discarded    bool
-	trace        []string
+	// rec fingerprints the whole observation record of the run: per call the
+	// status, the bytes consumed and the bytes written (C09 compares it
+	// across memory/flag/CPU-path variants).
+	rec   sim.FP
+	trace []string
 }
 
 // traceCap bounds the per-run call trace; CSIM_TRACE_ALL=1 lifts it (used to
@@ -153,7 +157,7 @@ type objSetup struct {
 
 // runStream decodes one stream under one schedule.
 func runStream(d *driver, st *stream, sch *schedule, setup objSetup, verbose bool) *runResult {
-	r := &runResult{}
+	r := &runResult{rec: sim.NewFP()}
 	data := st.data
 	dstCap := sch.dstCap
 	if dstCap < ampleSpace {
@@ -361,6 +365,9 @@ func runStream(d *driver, st *stream, sch *schedule, setup objSetup, verbose boo
 			r.badStatus = append(r.badStatus, fmt.Sprintf("call %d: status %q", r.calls, s))
 		}
 
+		r.rec.AddStr(obs.status)
+		r.rec.Add(uint64(obs.srcRi - ri0))
+		r.rec.Add(sim.Hash64(obs.out))
 		r.consumed = bufStart + obs.srcRi
 		r.out = append(r.out, obs.out...)
 		dstWi = obs.dstWiAfter
